@@ -233,5 +233,5 @@ def check(F, R, Gm, tier="quick"):
     for k, c in n.items():
         R.count("TYPE-SOUND." + k, c)
     R.ob("TYPE-SOUND", "evaluable", not bad_unknown, where, "%d programs of the family could not be evaluated: %s" % (len(bad_unknown), "; ".join(bad_unknown[:3])))
-    R.ob("TYPE-SOUND", "family-reaches-both-verdicts", n["rejected"] >= len(fam) // 5 and n["ok"] >= len(fam) // 20, where, "rejected %d, accepted and transformed %d of %d: the family must exercise both the rejecting and the accepting side" % (n["rejected"], n["ok"], len(fam)))
+    R.ob("TYPE-SOUND", "family-reaches-both-verdicts", n["rejected"] >= len(fam) // 5 and n["ok"] >= len(fam) // 20, where, undecided=n["unknown"] > len(fam) // 4, detail= "rejected %d, accepted and transformed %d of %d: the family must exercise both the rejecting and the accepting side" % (n["rejected"], n["ok"], len(fam)))
     R.ob("TYPE-SOUND", "family-parses", n["noparse"] <= len(fam) // 4, where, "%d of %d programs are not in the grammar" % (n["noparse"], len(fam)))
